@@ -187,10 +187,15 @@ def oracle_path(case):
     est, y = E.build(s, X)
     rec = BatchRecorder(est, keep=True)
     bsize = n if s.get("batch_size") is None else s["batch_size"]
-    val = {"calls": 0, "bad": None}
+    val = {"calls": 0, "bad": None, "alpha": None, "steps": []}
 
     def on_val(clf, Xv, yv, batch_size, res):
         val["calls"] += 1
+        if clf.alpha != val["alpha"]:
+            # first evaluation under a new penalty weight = start of a path step: the affinity of the step is that of the
+            # features selected now (dynamic mode) - no weight changes between this call and the step's first epoch
+            val["alpha"] = clf.alpha
+            val["steps"].append((len(rec.epochs), np.sort(np.asarray(clf.get_selection())).copy()))
         if val["bad"] is not None:
             return
         g = clf.get_gemini()
@@ -199,6 +204,8 @@ def oracle_path(case):
         sel = np.arange(Xv.shape[1])
         if clf.dynamic and yv is None:
             sel = clf.get_selection()
+            if len(sel) == 0:  # nothing selected: predictions are constant and every affinity gives the same score
+                sel = np.arange(Xv.shape[1])
         while j < len(Xv):
             blk = slice(j, j + batch_size)
             Ab = yv[blk][:, blk] if yv is not None else g.compute_affinity(Xv[blk][:, sel])
@@ -221,8 +228,34 @@ def oracle_path(case):
     if val["bad"]:
         raise Violation(f"{label}: {val['bad']}")
     partial = check_epochs(label, rec, False, n, bsize, False, None, X)
-    return {"nontrivial": bool(partial), "classes": [s["cls"] + (":dynamic" if s.get("dynamic") else "")],
-            "counts": {"epochs": len(rec.epochs), "val_score_calls": val["calls"]}}
+    # the affinity every epoch works with: the user's matrix, or the named kernel / metric of the data - in dynamic mode of
+    # the features still selected when the path step began
+    base, ovo, aff = E.describe(s)
+    reduced = 0
+    for e, ep in enumerate(rec.epochs):
+        if y is not None:
+            want = np.asarray(y)
+        else:
+            sel = np.arange(X.shape[1])
+            if s.get("dynamic"):
+                for start, sel_t in val["steps"]:  # the last step that began at or before this epoch governs it
+                    if start <= e:
+                        sel = sel_t
+            if len(sel) == 0:
+                continue
+            reduced += int(len(sel) < X.shape[1])
+            want = aff(np.ascontiguousarray(X[:, sel]))
+        got = ep["affinity"]
+        if want is None:
+            if got is not None:
+                raise Violation(f"{label}: epoch {e}: an affinity was handed to the batches of an objective that needs none")
+            continue
+        if got is None or np.shape(got) != np.shape(want) or not np.allclose(got, want, rtol=1e-9, atol=1e-12 * max(1.0, float(np.max(np.abs(want))))):
+            raise Violation(f"{label}: epoch {e}: the affinity handed to the batches is not the affinity of the data"
+                            + (f" restricted to the features {sel.tolist()} selected when the path step began" if y is None and s.get("dynamic") else "")
+                            + (f" (max deviation {float(np.max(np.abs(np.asarray(got) - want))):.3g})" if got is not None and np.shape(got) == np.shape(want) else ""))
+    return {"nontrivial": bool(partial), "classes": [s["cls"] + (":dynamic" if s.get("dynamic") else "")] + (["reduced_affinity"] if reduced else []),
+            "counts": {"epochs": len(rec.epochs), "val_score_calls": val["calls"], "epochs_on_reduced_selection": reduced}}
 
 
 @st.composite
